@@ -61,6 +61,8 @@ pub enum Step {
     Run { sel: u32 },
     /// process everything in FIFO order, let timers fire, then compare the store with the model
     Settle,
+    /// C07 sequential: clean stop and restart of the node from its directory
+    Restart,
 }
 
 #[derive(Serialize, Deserialize, Clone, Debug)]
@@ -292,11 +294,15 @@ impl Sim for NodeSim {
             }
         } else {
             let mutable_only = prop == "C07";
+            let with_restarts = rng.chance(1, 2);
             for _ in 0..n_del {
                 let unpaid_bias = prop != "C03" && rng.chance(1, 2);
                 let d = gen_delivery(rng, prop, mutable_only, unpaid_bias);
                 steps.push(Step::Deliver { d });
                 steps.push(Step::Settle);
+                if prop == "C07" && with_restarts && rng.chance(1, 4) {
+                    steps.push(Step::Restart);
+                }
             }
         }
         Plan {
